@@ -256,10 +256,12 @@ PROPS = {
         "tests": [
             T("TestC15Names", "codec", 60000, 4000000, shards=16),
             T("TestC15Sanitiser", "codec", 3000, 60000, shards=4),
+            T("TestC15Listing", "recv", 400, 48000, shards=16, qshards=4, procs=4),
         ],
         "assumptions": [
             "database names, generation ids and extra items are drawn from the documented safe alphabet [A-Za-z0-9-]",
             "timestamps are within 1970..2262 (non-negative int64 nanoseconds)",
+            "listing part: database names come from a small pool (the metric registries keep every label set); other databases' names extend, are a prefix of, or are unrelated to this database's name",
         ],
     },
 }
